@@ -10,6 +10,10 @@ hook_commits = subprocess.run(
 ).stdout.split()
 
 CHECKS = {
+ "C01": dict(cat="model_checking",
+   text="Two real nodes run the real CASE initiator and responder over an adversarial network under a virtual clock. Exhaustive within the catalogs: every credential configuration (valid shapes; look-alike signer, wrong operational key, expired / not-yet-valid, different roots on either side) untouched, and for the acceptable ones every single attacker move on every first transmission of every handshake datagram - per TLV field bit flips / deletion / truncation / transplant from another honest handshake, header bit flips, loss, duplication, stale replay (thorough: every single bit of every datagram, and moves crossed with one extra loss) - on the full and on the resumption handshake. Oracle on both session tables: sessions only for acceptable credentials, bound to the right fabric / node id / CATs, directional keys equal whenever both ends hold a session, no panic, no hang, no datagram storm.",
+   note="Cryptographic hardness assumed; invalid credentials limited to what the public generators can express (field-level certificate defects are C19's); one attacker move (+ one loss) per execution.",
+   tech="exhaustive single-fault injection over the message/field alphabet on the real two-node handshake (bounded fault enumeration with a reference predicate)"),
  "C04": dict(cat="model_checking",
    text="All histories of offered counters up to the stated depth over a relative boundary alphabet are executed on the real receive window (Session / GroupCtrStore) and compared step by step with a set-of-accepted-counters reference; states deduplicated on a canonical projection.",
    note="Assumes the window is only reached through post_recv; absolute counter values matter only through their distance to 0 / 2^32-1 (capped at 64); bounded depth.",
